@@ -259,7 +259,15 @@ def r_C25(root):
     fi_ni = sem.info(ni); cfg_ni = fi_ni.cfg
     # the namespace is registered (a call of _enter_namespace, or — when that helper is inlined — its store into self.namespaces)
     # on every path before the file of the import is loaded
-    regn = [n for n in cfg_ni.nodes if n.ast is not None and n.kind in ("stmt",) and (any(callee_name(c) == "_enter_namespace" for c in calls(n.ast)) or (isinstance(n.ast, ast.Assign) and any(isinstance(tg, ast.Subscript) and ast.unparse(tg.value) == "self.namespaces" for tg in n.ast.targets)))]
+    # helpers of the class that enter the namespace before they hand control back (a context manager: _enter_namespace before its first yield)
+    tmod_ = load(root, rel); enter_names = {"_enter_namespace"}
+    for f_ in [x for x in ast.walk(tmod_) if isinstance(x, ast.FunctionDef)]:
+        first_yield = min([y.lineno for y in ast.walk(f_) if isinstance(y, (ast.Yield, ast.YieldFrom))] or [10 ** 9])
+        if f_.name != "_new_import" and any(isinstance(c, ast.Call) and callee_name(c) == "_enter_namespace" and c.lineno < first_yield and not any(isinstance(a_, (ast.If, ast.Try, ast.For, ast.While)) for a_ in ancestors(c) if a_ is not f_ and isinstance(a_, ast.stmt)) for c in ast.walk(f_)): enter_names.add(f_.name)
+    def _with_heads(n_):
+        a_ = n_.ast
+        return [i_.context_expr for i_ in a_.items] if isinstance(a_, ast.With) else []
+    regn = [n for n in cfg_ni.nodes if n.ast is not None and ((isinstance(n.ast, ast.With) and any(isinstance(h_, ast.Call) and callee_name(h_) in enter_names for h_ in _with_heads(n))) or (isinstance(n.ast, ast.withitem) and isinstance(n.ast.context_expr, ast.Call) and callee_name(n.ast.context_expr) in enter_names))] + [n for n in cfg_ni.nodes if n.ast is not None and n.kind in ("stmt",) and (any(callee_name(c) in enter_names for c in calls(n.ast)) or (isinstance(n.ast, ast.Assign) and any(isinstance(tg, ast.Subscript) and ast.unparse(tg.value) == "self.namespaces" for tg in n.ast.targets)))]
     ln = fi_ni.node_of(load_call)
     if not regn or ln is None or cfg_ni.paths_avoiding_consistent(cfg_ni.entry, ln, lambda m: m in regn) is not None:
         out.append(Finding("C25", "C25.b", rel, "TextXMetaModel._new_import", ast.unparse(stmt_of(load_call)), "namespace not registered before loading (import cycles would recurse)"))
